@@ -82,3 +82,9 @@ func Trace(label string, v interface{}) {}
 func StrContains(a, b string) bool { return false }
 func Rollback(snap int) {}
 func DeclareEmptyStore(name string) {}
+
+// Opaque*: the value itself, handed to the engine as a variable constrained to it (no constant folding):
+// used by the translator self-tests (S00) to push concrete inputs through the symbolic encodings.
+func OpaqueString(v string) string { return v }
+func OpaqueInt64(v int64) int64    { return v }
+func OpaqueUint64(v uint64) uint64 { return v }
